@@ -49,7 +49,10 @@ ASSUMPTIONS = ['the tau matrices are data: the harness sends the matrix each Tre
                'admissibility is checked here (C10/C11/C17 cover the values)',
                'Edge.index equals the position in Tree.edges (checked on every extracted vine)']
 
-FIT_TIMEOUT_S = 40
+FIT_TIMEOUT_S = 20       # a fit takes < 1 s; only a non-terminating loop gets here
+FIT_TIMEOUT_AFTER_FIRST_S = 3
+MAX_TIMEOUTS_PER_TYPE = 2
+_TIMEOUTS = {}
 MODES = ('plain', 'swap', 'cyclic', 'small', 'discrete', 'neardup', 'dup', 'indep')
 MODE_W = (5, 5, 3, 4, 3, 2, 1, 2)
 TYPES = ('center', 'direct', 'regular')
@@ -138,12 +141,16 @@ def time_limit(seconds):
 def real_fit(X, vt, t):
     """-> ('ok', vine, snapshots) | ('timeout', None, None) | ('exc', exception, None)"""
     from copulas.multivariate.vine import VineCopula
+    if _TIMEOUTS.get(vt, 0) >= MAX_TIMEOUTS_PER_TYPE:
+        return 'skipped', None, None
+    limit = FIT_TIMEOUT_S if not _TIMEOUTS else FIT_TIMEOUT_AFTER_FIRST_S
     try:
-        with capture_tree_fits() as log, time_limit(FIT_TIMEOUT_S):
+        with capture_tree_fits() as log, time_limit(limit):
             v = VineCopula(vt)
             v.fit(X, truncated=t)
         return 'ok', v, log
     except FitTimeout:
+        _TIMEOUTS[vt] = _TIMEOUTS.get(vt, 0) + 1
         return 'timeout', None, None
     except Exception as e:  # noqa
         return 'exc', e, None
@@ -336,10 +343,13 @@ def run(ctx, lean):
             ctx.count(f'd={d}')
             ctx.count(f'mode={mode}')
             st, v, log = real_fit(X, vt, t)
+            if st == 'skipped':
+                ctx.count(f'skipped after {MAX_TIMEOUTS_PER_TYPE} non-terminating fits: {vt}')
+                continue
             if st == 'timeout':
                 ctx.case()
                 note('corr:fit-terminates', {'mode': mode, 'type': vt, 'd': d, 't': t})
-                ctx.fail_input('VineCopula.fit', table_input(X, vt, t), f'no result after {FIT_TIMEOUT_S}s',
+                ctx.fail_input('VineCopula.fit', table_input(X, vt, t), 'no result within the time limit (a fit takes < 1 s)',
                                'fit terminates', 'VineCopula.fit:does-not-terminate')
                 continue
             if st == 'exc':
@@ -688,10 +698,12 @@ def check_real(ctx, X, vt, t, counts):
     d = X.shape[1]
     tau_abs = np.abs(X.corr(method='kendall').to_numpy())
     st, v, _ = real_fit(X, vt, t)
+    if st == 'skipped':
+        return False
     counts['fits'] += 1
     if st == 'timeout':
         counts['failures'] += 1
-        ctx.fail_input('VineCopula.fit', table_input(X, vt, t), f'no result after {FIT_TIMEOUT_S}s',
+        ctx.fail_input('VineCopula.fit', table_input(X, vt, t), 'no result within the time limit (a fit takes < 1 s)',
                        'fit terminates', 'VineCopula.fit:does-not-terminate')
         return True
     if st == 'exc':
